@@ -557,7 +557,7 @@ def rule_d11(repo):
     of the result type with the datatype's own type, each with a failure on disagreement.  (zip stops at the shorter
     list: without (a) the extension is silently cut short; without (b) the distinctness and induction theorems are
     ill-typed.)"""
-    res = RuleResult('C11.D11', 'a datatype item is accepted only if every constructor builds the datatype and names each of its arguments', floor=2)
+    res = RuleResult('C11.D11', 'a datatype item is accepted only if every constructor builds the datatype, names each of its arguments and uses the datatype\'s type parameters only', floor=3)
     f = repo.func(ITEMS, 'Datatype.parse')
     cfg = cfg_of(f.node)
     flow = flow_of(f.node)
@@ -590,7 +590,26 @@ def rule_d11(repo):
         about = any(is_name(x, parts['res']) for x in cp[1:])
         dt = any(isinstance(x, ast.Call) and call_name(x) == 'TConst' and x.args and 'self.name' in src(x.args[0]) for x in (flow.inline(y) for y in cp[1:]))
         return about and dt and ((cp[0] is ast.Eq and pol) or (cp[0] is ast.NotEq and not pol))
-    for what, pred, why in (('names-match-argument-types', arity, 'zip(constr[\'args\'], argT) in the generated extension stops at the shorter list: with more names than '
+    def tvars_are_params(e, pol):
+        # all(tv in P for tv in T.get_tvars()) holds / any(tv not in P for tv in T.get_tvars()) fails / set(T.get_tvars()) <= P holds
+        e = flow.inline(e)
+        if isinstance(e, ast.Call) and isinstance(e.func, ast.Name) and e.func.id in ('all', 'any') and e.args and isinstance(e.args[0], (ast.GeneratorExp, ast.ListComp)):
+            g = e.args[0]
+            if len(g.generators) != 1 or g.generators[0].ifs or not any(isinstance(c, ast.Call) and call_attr(c) == 'get_tvars' for c in ast.walk(g.generators[0].iter)):
+                return False
+            cp = compare_parts(g.elt)
+            if not cp or not isinstance(g.generators[0].target, ast.Name) or not is_name(cp[1], g.generators[0].target.id):
+                return False
+            return (e.func.id == 'all' and cp[0] is ast.In and pol) or (e.func.id == 'any' and cp[0] is ast.NotIn and not pol)
+        cp = compare_parts(e)
+        if cp and cp[0] is ast.LtE and any(isinstance(c, ast.Call) and call_attr(c) == 'get_tvars' for c in ast.walk(cp[1])):
+            return pol
+        if isinstance(e, ast.Call) and call_attr(e) == 'issubset' and any(isinstance(c, ast.Call) and call_attr(c) == 'get_tvars' for c in ast.walk(e.func.value)):
+            return pol
+        return False
+    for what, pred, why in (('type-variables-are-parameters', tvars_are_params, 'a constructor Mk :: \'a => big of a datatype without parameters is recorded: it embeds every type, '
+                                                                              'also big set, into big'),
+                            ('names-match-argument-types', arity, 'zip(constr[\'args\'], argT) in the generated extension stops at the shorter list: with more names than '
                                                                   'argument types the extension is cut short without a word and the display form raises IndexError'),
                             ('result-is-the-datatype', result, 'a constructor of type nat => nat is recorded for the datatype, and the generated distinctness and '
                                                                'induction theorems are ill-typed')):
